@@ -284,7 +284,7 @@ def run(chk, gate, status):
     return {'evaluations': len(cases), 'programs': len(cases), 'distinct_nontrivial': len({(p, c) for p, c, *_ in cases}), 'rule': RULE,
             'exhaustive': True, 'exhaustive_bound': f"all {len(ALPHABET)} calls from all {nstates} lifecycle states reachable in <= {depth} calls",
             'states': nstates, 'disagreements_checked': ndis, 'oracle_failures': nfail, 'samples': samples,
-            'generator_distribution': dist, 'translator_status': status.get('LifecycleGen')}
+            'generator_distribution': dist, 'translator_status': status.get('LifecycleGen'), 'symbolic_extraction_status': status.get('LifecycleSym'), 'tie_used': (status.get('tie') or {}).get('LifecycleTie')}
 
 
 def replay(path):
